@@ -53,6 +53,133 @@ func runC12(p *load.Program, r *core.Report) {
 	c12Ack(p, r)
 	c12Cut(p, r)
 	c12Envelope(p, r)
+	c12Reassembly(p, r)
+	// R9: no frame is stranded in a receive queue
+	if a, problems := getAnchors(p); len(problems) == 0 {
+		r.Floor("C12.R9 no-stranded-frame", 1)
+		recvWorkerRecheck(a, r, "C12.R9 no-stranded-frame", "C12.R9")
+	} else {
+		r.Unk("C12.R9 no-stranded-frame", "C12.R9|anchors", "", "", "anchors resolve", strings.Join(problems, "; "))
+	}
+}
+
+// c12Reassembly: R8 — the stream reader appends: the bytes of a Read land at the offset that was the
+// buffer's length on entry (sampled before any helper that replaces the slice, since the growth
+// helper returns a slice of a different length) and the new length is that offset plus the count read.
+func c12Reassembly(p *load.Program, r *core.Report) {
+	rule := "C12.R8 stream-append"
+	r.Floor(rule, 1)
+	f := p.Func("lib", "Buffer", "ReadDataFrom")
+	key := "C12.R8|ReadDataFrom"
+	inst := "received bytes are appended at the buffer's logical end: Read target starts at len(B) as it was before the buffer was regrown, and the new length is that offset + n"
+	if f == nil {
+		r.Unk(rule, key, "", "", inst, "(*lib.Buffer).ReadDataFrom not found")
+		return
+	}
+	var read *ssa.Call
+	eachInstr(f, func(in ssa.Instruction) {
+		if c, ok := in.(*ssa.Call); ok && c.Common().IsInvoke() && c.Common().Method.Name() == "Read" {
+			read = c
+		}
+	})
+	if read == nil {
+		r.Unk(rule, key, fname(f), p.Pos(f.Pos()), inst, "no Read on the io.Reader")
+		return
+	}
+	sl, ok := read.Common().Args[0].(*ssa.Slice)
+	if !ok || sl.Low == nil {
+		r.Bad(rule, key, fname(f), p.Pos(read.Pos()), inst, "the Read target is not a slice of the buffer starting at its length: received bytes overwrite the part of the frame already received")
+		return
+	}
+	// the len() calls the low bound comes from
+	var lens []*ssa.Call
+	var collect func(v ssa.Value, d int)
+	seen := map[ssa.Value]bool{}
+	collect = func(v ssa.Value, d int) {
+		if seen[v] || d > 6 {
+			return
+		}
+		seen[v] = true
+		switch x := v.(type) {
+		case *ssa.Call:
+			if b, ok := x.Common().Value.(*ssa.Builtin); ok && b.Name() == "len" {
+				lens = append(lens, x)
+			}
+		case *ssa.Phi:
+			for _, e := range x.Edges {
+				collect(e, d+1)
+			}
+		case *ssa.Convert:
+			collect(x.X, d+1)
+		}
+	}
+	collect(sl.Low, 0)
+	var probs []string
+	if len(lens) == 0 {
+		probs = append(probs, "the Read offset is not the buffer length")
+	}
+	// helpers that replace b.B: callees (methods of Buffer) that store to field B
+	replaces := func(in ssa.Instruction) bool {
+		cc := callCommon(in)
+		if cc == nil {
+			return false
+		}
+		g := staticCallee(cc)
+		if g == nil || len(g.Blocks) == 0 || g.Signature.Recv() == nil || namedOf(g.Signature.Recv().Type()) != "lib.Buffer" {
+			return false
+		}
+		st := false
+		eachInstr(g, func(i2 ssa.Instruction) {
+			if s2, ok := i2.(*ssa.Store); ok {
+				if _, fl := fieldOwner(s2.Addr); fl == "B" {
+					st = true
+				}
+			}
+		})
+		return st
+	}
+	for _, lc := range lens {
+		if _, path, okp := fieldPath(lc.Common().Args[0]); !okp || len(path) == 0 || path[len(path)-1] != "B" {
+			probs = append(probs, "the offset is the length of something other than the buffer")
+			continue
+		}
+		var helpers []Point
+		eachInstr(f, func(in ssa.Instruction) {
+			if replaces(in) {
+				helpers = append(helpers, Point{in.Block(), indexIn(in) + 1})
+			}
+		})
+		if len(helpers) > 0 {
+			if hit := reaches(helpers, nil, func(in ssa.Instruction) bool { return in == ssa.Instruction(lc) }); hit != nil {
+				probs = append(probs, "the length is sampled at "+p.Pos(lc.Pos())+" after the buffer was regrown (the growth helper returns a slice whose length is the old capacity): stale bytes are spliced into the frame")
+			}
+		}
+	}
+	// new length = low + n
+	okLen := false
+	eachInstr(f, func(in ssa.Instruction) {
+		s2, ok := in.(*ssa.Slice)
+		if !ok || s2.High == nil || s2 == sl {
+			return
+		}
+		if b, ok := s2.High.(*ssa.BinOp); ok && b.Op == token.ADD {
+			isN := func(v ssa.Value) bool {
+				ex, ok := v.(*ssa.Extract)
+				return ok && ex.Tuple == ssa.Value(read) && ex.Index == 0
+			}
+			if (b.X == sl.Low && isN(b.Y)) || (b.Y == sl.Low && isN(b.X)) {
+				okLen = true
+			}
+		}
+	})
+	if !okLen {
+		probs = append(probs, "the new length is not (offset + bytes read)")
+	}
+	if len(probs) > 0 {
+		r.Bad(rule, key, fname(f), p.Pos(read.Pos()), inst, strings.Join(probs, "; "))
+	} else {
+		r.OK(rule, key, fname(f), p.Pos(read.Pos()), inst, fmt.Sprintf("offset = len(B) sampled before the growth helper (%d sample(s)); new length = offset + n", len(lens)))
+	}
 }
 
 // c12Envelope: R7 — compression envelope agreement between send and the receive worker, and
